@@ -47,6 +47,8 @@ import Proofs.FitCutGuard
 import Proofs.FitNorm
 import Proofs.JoinSuccess
 import Proofs.Placement
+import Proofs.DelAround
+import Proofs.InsAround
 import Props.C01
 namespace PM.C11
 open PM
@@ -1848,7 +1850,14 @@ target (`reopen`: same types), and every joined node's content is accepted becau
 state after the joined content (`Coh`, Proofs/FitCoherent.lean) and `find_close_level` / `content_after_fits` answered
 a filling for the rest of the document's node behind `to`.  `Coh` is proved invariant only under `unplacedWfRun`; the
 bridge "`Coh` at the end of `close` ⇒ `checkContent` of every joined level" is not proved.  The tie (op `fitEmit`) applies
-every emitted step of the model and of the code and compares the documents. -/
+every emitted step of the model and of the code and compares the documents.
+
+SINCE PROVED by a different route (the result document built explicitly from the frames of `from` and of the position
+`close` continues from; sections "The emitted step applies" at the end of this file): `delete_applies` /
+`delete_never_raises` / `deleteRange_never_raises` for every deletion under decidable schema guards, and for content
+`replace_applies_direct` / `insertInline_never_raises_direct_partial` (the node `from` is in accepts the slice as it
+stands).  Still open for inline leaves: the runs in which the Fitter closes frontier nodes or opens wrappers before it
+places the content. -/
 
 /-- **what C11 says about the document an operation returns** for the request "replace `[f, t)` of a document with
     tokens `d` by a slice with text `req`": the content tokens (text units and leaf nodes, with marks and attributes)
@@ -2491,11 +2500,11 @@ building a Fitter (`fits_trivially`).  Either end may lie strictly inside a text
 * `fnorm doc.kids` (no empty text nodes, no adjacent text nodes with equal marks: what `Fragment.from_array` /
   `Node.from_json` build) and `pairAligned` for both ends (Python cannot cut a `str` inside a surrogate pair).
 
-WHAT IS MISSING for the general `delete_applies` (the Fitter's answer `ReplaceStep(f, t', ⟨placed, depth(from), d⟩)` or the
+WHAT THE GENERAL `delete_applies` NEEDED — proved in the last section of this file, `delete_applies` — (the Fitter's answer `ReplaceStep(f, t', ⟨placed, depth(from), d⟩)` or the
 replace-around "move" form): the success of `replace_outer` at the joined levels.  At each joined depth `i` the replace
 calls `close(node_i, left_i ++ inner_i ++ right_i)` with `left_i` the children of the document's ancestor of `from`
 before the path, `inner_i` the closed deeper level plus the fillers `close_frontier_node` added, `right_i` the children
-of the ancestor of `t'` behind the path.  Needed and not yet proved: (1) a description of `placed` as this chain
+of the ancestor of `t'` behind the path.  Needed (and since proved): (1) a description of `placed` as this chain
 (`PureV`, Proofs/FitValid.lean, gives validity of each level but not *which* children it has); (2) from `Coh`
 (Proofs/FitCoherent.lean) at the end of `close`: `frontier[i].match` is the state after `left_i ++ inner_i`, and
 `findCloseLevel` / `closeFit_valid` give that `right_i` is accepted from it — i.e. `checkContent` of the joined node;
@@ -2933,5 +2942,463 @@ example :
     (⟨[.elem 3 [] [] [.elem 2 [] [] [.text [122] []]]], 1, 2⟩ : Slice).wf = true ∧
     (⟨[.elem 1 [] [] [.text [120] []], .elem 1 [] [] [.text [121] []]], 1, 1⟩ : Slice).wf = true := by
   simp [Slice.wf, spineL, spineR]
+
+/-! ## The emitted step applies (first sentence of C11): every deletion
+
+The three facts the section above lists as missing are proved (Proofs/DelSpine.lean … Proofs/DelAround.lean): the
+document the operation returns is *built* from the frames of `from` and of the position the step ends at
+(`leftK` / `rightK` / `joinK`), shown valid level by level from the frontier's matches, the fillers and the checks of
+`find_close_level`, and `replaceKids_merged` (Proofs/MergeOpen.lean) turns it into success of the replace.  What the
+run of the Fitter does *not* establish is asked of the schema, as decidable guards (PM/DeleteGuards.lean; kernel-checked
+for the bundled family, lean/Gen/Guards):
+
+* `joinCompatB` — two node types whose content automata share an edge label are `compatible_content` (fact (3): the
+  `check_join` of the document ancestors at the joined depths).  Needed: `joinCompat_needed` below (the schema
+  `doc "(x | y)+"`, `x "a b*"`, `y "b+"`).
+* `reopenOKB` — every state of every automaton is covered by a state reachable from the start over generatable types:
+  `close` re-opens the ancestors of `to` with `fill_before(node.content, True, index)` from the start state and stores the
+  node whatever the answer.
+* `S.closableB` — `fill_before(Fragment.empty, True)` answers at every state (`close_frontier_node` skips a `None`).
+* `textAbsorbB` (weaker than `FromDom.textStableB`, which `delete_applies_flat` asks) — for the trivial fit, where
+  `can_replace` looks at whole children and the replace keeps half a text child; `textStableC` (merging two text halves).
+* `inlineUniformB` — for the replace-around answer ("move the inline content behind `to` into the textblock of `from`"):
+  the fillers `close_frontier_node` computed without the moved content come behind it.
+
+Hypotheses about the document: valid (`Node.check`), in normal form, element attributes creatable, both ends
+pair-aligned, and `highClosedKids` — no text node holds a high surrogate without its low surrogate (a Python `str`
+without lone surrogates; `TextNode` refuses others): joining `"…\ud83d"` with `"\ude00…"` would put a position of
+the result inside a surrogate pair. -/
+
+/-- `pairAligned` is the function the driver evaluates (op `deleteApplies`) -/
+theorem pairAligned_eq (doc : Node) (pos : Nat) : pairAligned doc pos = PM.pairAlignedB doc pos := by
+  unfold pairAligned PM.pairAlignedB
+  cases doc.resolve pos <;> rfl
+
+/-- **`delete_applies`** — on a valid document in normal form, for `f ≤ t` both pair-aligned, every step
+    `replace_step(doc, f, t, Slice.empty)` emits — `ReplaceStep` from the trivial fit, `ReplaceStep` from the Fitter,
+    `ReplaceAroundStep` from the Fitter — **applies**: `Step.apply(doc)` returns a document -/
+theorem delete_applies (S : Schema) (hdet : detB S = true) (hfill : S.fillersOKB = true)
+    (hleaf : PM.FromDom.leafOkB S = true) (hcl : S.closableB = true) (hts : textStableC S = true)
+    (hta : textAbsorbB S = true) (hjc : joinCompatB S = true) (hro : reopenOKB S = true)
+    (hiu : inlineUniformB S = true) (doc : Node) (f t : Nat)
+    (hv : C01.Valid S doc) (hdoc : C01.IsElem doc) (hn : fnorm doc.kids = true) (hattrs : S.nodeAttrsOK doc = true)
+    (hhc : highClosedKids doc.kids = true) (hft : f ≤ t)
+    (hpf : pairAligned doc f = true) (hpt : pairAligned doc t = true) (st : Step)
+    (h : replaceStep S doc f t Slice.empty = .ok (some st)) : ∃ doc', S.apply st doc = .ok doc' := by
+  cases doc with
+  | text s m => simp [C01.IsElem, Node.isLeaf] at hdoc
+  | leaf ty a m => simp [C01.IsElem, Node.isLeaf] at hdoc
+  | elem ty0 a0 m0 K =>
+    cases hrf : (Node.elem ty0 a0 m0 K).resolve f with
+    | none =>
+      unfold replaceStep at h
+      split at h
+      · simp [pure, Except.pure] at h
+      · simp [hrf, throw, throwThe, MonadExceptOf.throw] at h
+    | some rf =>
+      cases hrt : (Node.elem ty0 a0 m0 K).resolve t with
+      | none =>
+        unfold replaceStep at h
+        split at h
+        · simp [pure, Except.pure] at h
+        · simp [hrf, hrt, throw, throwThe, MonadExceptOf.throw] at h
+      | some rt =>
+        have hpf' : rf.pairOk = true := by simpa [pairAligned, hrf] using hpf
+        have hpt' : rt.pairOk = true := by simpa [pairAligned, hrt] using hpt
+        exact replaceStep_delete_applies S (detS_of_detB S hdet) (PM.FromDom.leafOk_of_B S hleaf)
+          (fillersOK_of_B S hfill) (closable_of_B S hcl) (textStableP_of_C S hts) (textAbsorb_of_B S hta) hjc hro hiu
+          ty0 a0 m0 K f t hv hn hattrs hhc hft rf rt hrf hrt hpf' hpt' st h
+
+/-- **`delete_never_raises`** — `Transform.delete(f, t)` as a whole: `replace_step` returns `None` (nothing to do) or a
+    step, and that step applies: the operation returns a valid document with exactly the text inside `[f, t)` removed
+    and everything else kept.  No refusal branch, no hypothesis about the step. -/
+theorem delete_never_raises (S : Schema) (hdet : detB S = true) (hfill : S.fillersOKB = true)
+    (hleaf : PM.FromDom.leafOkB S = true) (hcl : S.closableB = true) (hts : textStableC S = true)
+    (hta : textAbsorbB S = true) (hjc : joinCompatB S = true) (hro : reopenOKB S = true)
+    (hiu : inlineUniformB S = true) (doc : Node) (f t : Nat)
+    (hv : C01.Valid S doc) (hdoc : C01.IsElem doc) (hn : fnorm doc.kids = true) (hattrs : S.nodeAttrsOK doc = true)
+    (hhc : highClosedKids doc.kids = true) (htop : S.isTextblockO (S.tyOf doc) = false)
+    (hft : f ≤ t) (ht : t ≤ fsize doc.kids)
+    (hpf : pairAligned doc f = true) (hpt : pairAligned doc t = true) :
+    replaceStep S doc f t Slice.empty = .ok none ∨
+    ∃ st doc', replaceStep S doc f t Slice.empty = .ok (some st) ∧ S.apply st doc = .ok doc' ∧ C01.Valid S doc' ∧
+      Kept (ftoks doc.kids) (ftoks doc'.kids) f t [] ∧
+      textUnits (ftoks doc'.kids) = textUnits ((ftoks doc.kids).take f) ++ textUnits ((ftoks doc.kids).drop t) := by
+  obtain ⟨r, hr⟩ := delete_total S hdet hfill doc f t hv hattrs htop hft ht
+  cases r with
+  | none => exact .inl hr
+  | some st =>
+    obtain ⟨doc', ha⟩ := delete_applies S hdet hfill hleaf hcl hts hta hjc hro hiu doc f t hv hdoc hn hattrs hhc hft
+      hpf hpt st hr
+    exact .inr ⟨st, doc', hr, ha, delete_valid S hdet hfill hleaf doc doc' f t hv hattrs hft st hr ha⟩
+
+/-- the positions `delete_range` hands to `delete` are pair-aligned when the requested ones are: it widens the range
+    over open and close tokens only -/
+theorem deleteRange_target_aligned (S : Schema) (doc : Node) (f t f' t' : Nat) (hdoc : C01.IsElem doc)
+    (hn : fnorm doc.kids = true) (ht : t ≤ fsize doc.kids) (hft : f ≤ t)
+    (hpf : pairAligned doc f = true) (hpt : pairAligned doc t = true)
+    (h : deleteRangeTarget S doc f t = some (f', t')) :
+    pairAligned doc f' = true ∧ pairAligned doc t' = true := by
+  obtain ⟨h1, h2, h3, ho, hc⟩ := deleteRange_extends_structurally S doc f t f' t' h
+  cases doc with
+  | text s m => simp [C01.IsElem, Node.isLeaf] at hdoc
+  | leaf ty a m => simp [C01.IsElem, Node.isLeaf] at hdoc
+  | elem ty0 a0 m0 K =>
+    have key : ∀ pos, pos ≤ fsize K → alignedAt K pos = true → pairAligned (Node.elem ty0 a0 m0 K) pos = true := by
+      intro pos hp ha
+      obtain ⟨r, hr⟩ := resolve_isSome (Node.elem ty0 a0 m0 K) pos hp
+      simp only [pairAligned, hr]
+      exact pairOk_of_aligned hr hn ha
+    have back : ∀ pos, pos ≤ fsize K → pairAligned (Node.elem ty0 a0 m0 K) pos = true → alignedAt K pos = true := by
+      intro pos hp ha
+      obtain ⟨r, hr⟩ := resolve_isSome (Node.elem ty0 a0 m0 K) pos hp
+      simp only [pairAligned, hr] at ha
+      exact aligned_of_pairOk hr hn ha
+    have ht' : t ≤ fsize K := ht
+    have h3' : t' ≤ fsize K := h3
+    constructor
+    · refine key f' (by omega) ?_
+      rcases Nat.eq_or_lt_of_le h1 with e | hlt
+      · rw [e]; exact back f (by omega) hpf
+      · rw [alignedAt_toks K _ hn]
+        apply tokAligned_nonunit_right
+        intro tk htk
+        obtain ⟨ty, a, m, e⟩ := ho f' (Nat.le_refl _) hlt
+        have e' : (ftoks K)[f']? = some (Tok.op ty a m) := e
+        rw [e'] at htk; cases htk; rfl
+    · refine key t' h3' ?_
+      rcases Nat.eq_or_lt_of_le h2 with e | hlt
+      · rw [← e]; exact back t ht' hpt
+      · rw [alignedAt_toks K _ hn]
+        obtain ⟨j, rfl⟩ : ∃ j, t' = j + 1 := ⟨t' - 1, by omega⟩
+        apply tokAligned_nonunit_left
+        intro tk htk
+        have e' : (ftoks K)[j]? = some Tok.cl := hc j (by omega) (by omega)
+        rw [e'] at htk; cases htk; rfl
+
+/-- **`deleteRange_applies`** — the step `Transform.delete_range(f, t)` records applies -/
+theorem deleteRange_applies (S : Schema) (hdet : detB S = true) (hfill : S.fillersOKB = true)
+    (hleaf : PM.FromDom.leafOkB S = true) (hcl : S.closableB = true) (hts : textStableC S = true)
+    (hta : textAbsorbB S = true) (hjc : joinCompatB S = true) (hro : reopenOKB S = true)
+    (hiu : inlineUniformB S = true) (doc : Node) (f t : Nat)
+    (hv : C01.Valid S doc) (hdoc : C01.IsElem doc) (hn : fnorm doc.kids = true) (hattrs : S.nodeAttrsOK doc = true)
+    (hhc : highClosedKids doc.kids = true) (hft : f ≤ t) (ht : t ≤ fsize doc.kids)
+    (hpf : pairAligned doc f = true) (hpt : pairAligned doc t = true) (st : Step)
+    (h : deleteRangeStep S doc f t = .ok (some st)) : ∃ doc', S.apply st doc = .ok doc' := by
+  unfold deleteRangeStep at h
+  split at h
+  · simp [throw, throwThe, MonadExceptOf.throw] at h
+  · rename_i a b htg
+    obtain ⟨h1, h2, _⟩ := deleteRange_extends_structurally S doc f t a b htg
+    obtain ⟨ha, hb⟩ := deleteRange_target_aligned S doc f t a b hdoc hn ht hft hpf hpt htg
+    exact delete_applies S hdet hfill hleaf hcl hts hta hjc hro hiu doc a b hv hdoc hn hattrs hhc (by omega) ha hb st h
+
+/-- **`deleteRange_never_raises`** — `Transform.delete_range(f, t)` as a whole -/
+theorem deleteRange_never_raises (S : Schema) (hdet : detB S = true) (hfill : S.fillersOKB = true)
+    (hleaf : PM.FromDom.leafOkB S = true) (hcl : S.closableB = true) (hts : textStableC S = true)
+    (hta : textAbsorbB S = true) (hjc : joinCompatB S = true) (hro : reopenOKB S = true)
+    (hiu : inlineUniformB S = true) (doc : Node) (f t : Nat)
+    (hv : C01.Valid S doc) (hdoc : C01.IsElem doc) (hn : fnorm doc.kids = true) (hattrs : S.nodeAttrsOK doc = true)
+    (hhc : highClosedKids doc.kids = true) (htop : S.isTextblockO (S.tyOf doc) = false)
+    (hft : f ≤ t) (ht : t ≤ fsize doc.kids)
+    (hpf : pairAligned doc f = true) (hpt : pairAligned doc t = true) :
+    deleteRangeStep S doc f t = .ok none ∨
+    ∃ st doc', deleteRangeStep S doc f t = .ok (some st) ∧ S.apply st doc = .ok doc' ∧ C01.Valid S doc' ∧
+      Kept (ftoks doc.kids) (ftoks doc'.kids) f t [] ∧
+      textUnits (ftoks doc'.kids) = textUnits ((ftoks doc.kids).take f) ++ textUnits ((ftoks doc.kids).drop t) := by
+  obtain ⟨r, hr⟩ := deleteRange_total S hdet hfill doc f t hv hattrs htop hft ht
+  cases r with
+  | none => exact .inl hr
+  | some st =>
+    obtain ⟨doc', ha⟩ := deleteRange_applies S hdet hfill hleaf hcl hts hta hjc hro hiu doc f t hv hdoc hn hattrs hhc hft
+      ht hpf hpt st hr
+    exact .inr ⟨st, doc', hr, ha, deleteRange_valid S hdet hfill hleaf doc doc' f t hv hattrs hft st hr ha⟩
+
+/-- **`replaceRange_delete_applies`** — `replace_range(f, t, slice)` with a slice of size 0 (it goes through
+    `delete_range`): the step its one call of `replace` records applies -/
+theorem replaceRange_delete_applies (S : Schema) (hdet : detB S = true) (hfill : S.fillersOKB = true)
+    (hleaf : PM.FromDom.leafOkB S = true) (hcl : S.closableB = true) (hts : textStableC S = true)
+    (hta : textAbsorbB S = true) (hjc : joinCompatB S = true) (hro : reopenOKB S = true)
+    (hiu : inlineUniformB S = true) (doc : Node) (f t : Nat) (sl : Slice) (hsz : (sl.size == 0) = true)
+    (cs : List (Nat × Nat × Slice))
+    (hv : C01.Valid S doc) (hdoc : C01.IsElem doc) (hn : fnorm doc.kids = true) (hattrs : S.nodeAttrsOK doc = true)
+    (hhc : highClosedKids doc.kids = true) (hft : f ≤ t) (ht : t ≤ fsize doc.kids)
+    (hpf : pairAligned doc f = true) (hpt : pairAligned doc t = true)
+    (h : replaceRangeCalls S doc f t sl = some cs) (c : Nat × Nat × Slice) (hc : c ∈ cs) (st : Step)
+    (hst : replaceStep S doc c.1 c.2.1 c.2.2 = .ok (some st)) : ∃ doc', S.apply st doc = .ok doc' := by
+  have hds : deleteRangeStep S doc f t = .ok (some st) := by
+    unfold replaceRangeCalls replaceRangePlan at h
+    rw [if_pos hsz] at h
+    unfold deleteRangeStep
+    split at h
+    · simp at h
+    · rename_i a b htg
+      simp only [Option.map_some, RRPlan.toCalls, Option.some.injEq] at h
+      subst h
+      simp only [List.mem_singleton] at hc
+      subst hc
+      rw [htg]
+      exact hst
+  exact deleteRange_applies S hdet hfill hleaf hcl hts hta hjc hro hiu doc f t hv hdoc hn hattrs hhc hft ht hpf hpt st hds
+
+/-! ### the trivial fit with content (typing, pasting closed content where it fits as it is) -/
+
+/-- **`trivialFit_replace_applies`** — `trivialFit_delete_applies` for every closed slice: when `fits_trivially` approves
+    (`from` and `to` have the same parent and `can_replace(index(from), index(to), slice.content)` holds), the step
+    `ReplaceStep(f, t, slice)` applies.  The slice's content in normal form; no hypothesis about its nodes (the replace
+    validates the level it changes, `can_replace` tested exactly that, up to the two text halves: `textAbsorbB`). -/
+theorem trivialFit_replace_applies (S : Schema) (hts : textStableC S = true) (hta : textAbsorbB S = true) (doc : Node)
+    (f t : Nat) (sl : Slice) (hv : C01.Valid S doc) (hdoc : C01.IsElem doc) (hn : fnorm doc.kids = true)
+    (hsn : fnorm sl.content = true) (hft : f ≤ t)
+    (hpf : pairAligned doc f = true) (hpt : pairAligned doc t = true)
+    (htr : fitsTriviallyO S doc f t sl = some true) :
+    ∃ doc', S.apply (.replace f t sl false) doc = .ok doc' := by
+  cases doc with
+  | text s m => simp [C01.IsElem, Node.isLeaf] at hdoc
+  | leaf ty a m => simp [C01.IsElem, Node.isLeaf] at hdoc
+  | elem ty0 a0 m0 K =>
+    unfold fitsTriviallyO at htr
+    split at htr
+    · rename_i rf rt hf ht
+      have hpf' : rf.pairOk = true := by simpa [pairAligned, hf] using hpf
+      have hpt' : rt.pairOk = true := by simpa [pairAligned, ht] using hpt
+      exact trivial_replace_applies S (textAbsorb_of_B S hta) (textStableP_of_C S hts) ty0 a0 m0 K f t rf rt sl hf ht hv hn
+        hsn hft hpf' hpt' htr
+    · simp at htr
+
+/-- **`replace_never_raises_flat`** — `Transform.replace(f, t, slice)` (and `insert`, `replace_with`, typing) when the
+    request fits trivially: `replace_step` answers `ReplaceStep(f, t, slice)` and that step applies -/
+theorem replace_never_raises_flat (S : Schema) (hts : textStableC S = true) (hta : textAbsorbB S = true) (doc : Node)
+    (f t : Nat) (sl : Slice) (hv : C01.Valid S doc) (hdoc : C01.IsElem doc) (hn : fnorm doc.kids = true)
+    (hsn : fnorm sl.content = true) (hft : f ≤ t)
+    (hpf : pairAligned doc f = true) (hpt : pairAligned doc t = true) (hne : ¬ (f = t ∧ sl.size = 0))
+    (htr : fitsTriviallyO S doc f t sl = some true) :
+    ∃ doc', replaceStep S doc f t sl = .ok (some (.replace f t sl false)) ∧
+      S.apply (.replace f t sl false) doc = .ok doc' := by
+  obtain ⟨doc', ha⟩ := trivialFit_replace_applies S hts hta doc f t sl hv hdoc hn hsn hft hpf hpt htr
+  exact ⟨doc', replaceStep_trivial S doc f t sl hne htr, ha⟩
+
+/-- **`insertInline_never_raises_flat`** — typing / inserting inline leaves where they fit as they are: the operation
+    returns a valid document, everything outside `[f, t)` kept, the text between an in-order subsequence of the typed
+    text -/
+theorem insertInline_never_raises_flat (S : Schema) (hdet : detB S = true) (hfill : S.fillersOKB = true)
+    (hwrap : S.wrapOKB = true) (hlab : S.labelsOKB = true) (hleaf : PM.FromDom.leafOkB S = true)
+    (hts : textStableC S = true) (hcl : S.closableB = true) (hta : textAbsorbB S = true) (doc : Node) (f t : Nat)
+    (sl : Slice) (hsl : sl.inlineLeaves S = true) (hslv : sl.closedValid S = true) (hsn : fnorm sl.content = true)
+    (hv : C01.Valid S doc) (hdoc : C01.IsElem doc) (hn : fnorm doc.kids = true) (hattrs : S.nodeAttrsOK doc = true)
+    (hft : f ≤ t) (hpf : pairAligned doc f = true) (hpt : pairAligned doc t = true)
+    (hne : ¬ (f = t ∧ sl.size = 0)) (htr : fitsTriviallyO S doc f t sl = some true) :
+    ∃ doc', replaceStep S doc f t sl = .ok (some (.replace f t sl false)) ∧
+      S.apply (.replace f t sl false) doc = .ok doc' ∧ C01.Valid S doc' ∧
+      Kept (ftoks doc.kids) (ftoks doc'.kids) f t (textUnits (sliceToks' sl)) := by
+  obtain ⟨doc', hst, ha⟩ := replace_never_raises_flat S hts hta doc f t sl hv hdoc hn hsn hft hpf hpt hne htr
+  refine ⟨doc', hst, ha, ?_⟩
+  exact insertInline_valid_partial S hdet hfill hwrap hlab hleaf hts hcl doc doc' f t sl hsl hslv hv hattrs hft _ hst
+    (by intro F T G1 G2 sl' ins b h; cases h) ha
+
+/-- the hypotheses of `trivialFit_replace_applies` are satisfiable: typing `"x"` into `doc(p("abcd"))` at position 3
+    (strictly inside the text child) fits trivially -/
+example :
+    let nt (name : String) (isText inl : Bool) (dfa : Array DfaState) : NodeType :=
+      { name := name, isText := isText, isInline := isText, isLeaf := isText, isAtom := isText,
+        inlineContent := inl, isolating := false, defining := false, code := false,
+        dfa := dfa, markSet := none, attrs := [] }
+    let S : Schema := { nodes := #[nt "doc" false false #[⟨false, [(1, 1)]⟩, ⟨true, [(1, 1)]⟩],
+                                   nt "paragraph" false true #[⟨true, [(2, 0)]⟩],
+                                   nt "text" true false #[⟨true, []⟩]],
+                        marks := #[], top := 0, textTy := 2 }
+    let doc := Node.elem 0 [] [] [.elem 1 [] [] [.text [97, 98, 99, 100] []]]
+    let sl : Slice := ⟨[.text [120] []], 0, 0⟩
+    textStableC S = true ∧ textAbsorbB S = true ∧ S.checkNode doc = true ∧ fnorm doc.kids = true ∧
+    fnorm sl.content = true ∧ pairAligned doc 3 = true ∧ fitsTriviallyO S doc 3 3 sl = some true := by
+  decide +kernel
+
+/-- the hypotheses of `delete_applies` are satisfiable on runs that reach the Fitter: `doc(p("ab"), p("cd"))` with
+    `doc: "paragraph+"`, `paragraph: "text*"` — deleting `[2, 6)` (from inside the first paragraph to inside the second)
+    is not a trivial fit and ends in the replace step that joins the paragraphs; in `doc(bq(p("ab")), p("cd"))` with
+    `doc: "block+"`, `blockquote: "block+"`, deleting `[3, 8)` ends in the replace-around step that moves `"d"` into
+    the quoted paragraph -/
+example :
+    let nt (name : String) (isText inl : Bool) (dfa : Array DfaState) : NodeType :=
+      { name := name, isText := isText, isInline := isText, isLeaf := isText, isAtom := isText,
+        inlineContent := inl, isolating := false, defining := false, code := false,
+        dfa := dfa, markSet := none, attrs := [] }
+    let S : Schema := { nodes := #[nt "doc" false false #[⟨false, [(1, 1), (2, 1)]⟩, ⟨true, [(1, 1), (2, 1)]⟩],
+                                   nt "paragraph" false true #[⟨true, [(3, 0)]⟩],
+                                   nt "blockquote" false false #[⟨false, [(1, 1), (2, 1)]⟩, ⟨true, [(1, 1), (2, 1)]⟩],
+                                   nt "text" true false #[⟨true, []⟩]],
+                        marks := #[], top := 0, textTy := 3 }
+    let doc1 := Node.elem 0 [] [] [.elem 1 [] [] [.text [97, 98] []], .elem 1 [] [] [.text [99, 100] []]]
+    let doc2 := Node.elem 0 [] [] [.elem 2 [] [] [.elem 1 [] [] [.text [97, 98] []]], .elem 1 [] [] [.text [99, 100] []]]
+    detB S = true ∧ S.fillersOKB = true ∧ PM.FromDom.leafOkB S = true ∧ S.closableB = true ∧ textStableC S = true ∧
+    textAbsorbB S = true ∧ joinCompatB S = true ∧ reopenOKB S = true ∧ inlineUniformB S = true ∧
+    S.checkNode doc1 = true ∧ fnorm doc1.kids = true ∧ S.nodeAttrsOK doc1 = true ∧ highClosedKids doc1.kids = true ∧
+    pairAligned doc1 2 = true ∧ pairAligned doc1 6 = true ∧
+    fitsTriviallyO S doc1 2 6 Slice.empty = some false ∧
+    (match replaceStep S doc1 2 6 Slice.empty with
+     | .ok (some (.replace 2 6 sl _)) => sl == Slice.empty
+     | _ => false) = true ∧
+    S.checkNode doc2 = true ∧ fnorm doc2.kids = true ∧ S.nodeAttrsOK doc2 = true ∧ highClosedKids doc2.kids = true ∧
+    pairAligned doc2 3 = true ∧ pairAligned doc2 8 = true ∧
+    (match replaceStep S doc2 3 8 Slice.empty with
+     | .ok (some (.replaceAround 3 10 8 9 _ 0 _)) => true
+     | _ => false) = true := by
+  decide +kernel
+
+/-! ### the direct fit: content the node `from` is in accepts as it stands (typing over a selection across blocks)
+
+`directFitB S doc f slice` (PM/DeleteGuards.lean; driver op `directApplies`): the slice is closed and, from
+`from.parent.content_match_at(from.index_after())`, `match_type` succeeds over every node of its content.  Then the loop
+of `Fitter.fit` runs once — `find_fittable` answers the innermost frontier entry at once (pass 1, slice depth 0, the top
+frontier depth), `place_nodes` takes every node (marks the parent does not allow removed, adjacent text merged by
+`Fragment.from_array`) — and `must_move_inline` / `close` go on with that content at the innermost level of `from`
+(Proofs/InsDirect.lean, Proofs/InsAround.lean).  Both answers apply: the `ReplaceStep` whose slice holds the placed
+nodes in front of the fillers, and the `ReplaceAroundStep` with `insert` = the size of the placed nodes (`insert_into`
+steps over them and appends the moved inline content).  The slice's nodes valid, its content in normal form and without
+a lone high surrogate (as for the document). -/
+
+/-- **`replace_applies_direct`** — `replace(f, t, slice)` (`insert`, `replace_with`, typing) with a closed slice that the
+    node `from` is in accepts as it stands behind `from`: every step `replace_step` emits applies -/
+theorem replace_applies_direct (S : Schema) (hdet : detB S = true) (hfill : S.fillersOKB = true)
+    (hleaf : PM.FromDom.leafOkB S = true) (hcl : S.closableB = true) (hts : textStableC S = true)
+    (hta : textAbsorbB S = true) (hjc : joinCompatB S = true) (hro : reopenOKB S = true)
+    (hiu : inlineUniformB S = true) (doc : Node) (f t : Nat) (sl : Slice)
+    (hv : C01.Valid S doc) (hdoc : C01.IsElem doc) (hn : fnorm doc.kids = true) (hattrs : S.nodeAttrsOK doc = true)
+    (hhc : highClosedKids doc.kids = true) (hft : f ≤ t)
+    (hpf : pairAligned doc f = true) (hpt : pairAligned doc t = true)
+    (hdir : directFitB S doc f sl = true) (hslv : sl.closedValid S = true) (hsn : fnorm sl.content = true)
+    (hshc : highClosedKids sl.content = true) (st : Step)
+    (h : replaceStep S doc f t sl = .ok (some st)) : ∃ doc', S.apply st doc = .ok doc' := by
+  cases doc with
+  | text s m => simp [C01.IsElem, Node.isLeaf] at hdoc
+  | leaf ty a m => simp [C01.IsElem, Node.isLeaf] at hdoc
+  | elem ty0 a0 m0 K =>
+    cases hrf : (Node.elem ty0 a0 m0 K).resolve f with
+    | none => simp [directFitB, hrf] at hdir
+    | some rf =>
+      cases hrt : (Node.elem ty0 a0 m0 K).resolve t with
+      | none =>
+        unfold replaceStep at h
+        split at h
+        · simp [pure, Except.pure] at h
+        · simp [hrf, hrt, throw, throwThe, MonadExceptOf.throw] at h
+      | some rt =>
+        have hpf' : rf.pairOk = true := by simpa [pairAligned, hrf] using hpf
+        have hpt' : rt.pairOk = true := by simpa [pairAligned, hrt] using hpt
+        simp only [directFitB, hrf, Bool.and_eq_true, beq_iff_eq] at hdir
+        obtain ⟨⟨hos, hoe⟩, hacc⟩ := hdir
+        cases hq : S.contentMatchAt (S.tyOf rf.parent) rf.parent.kids (rf.indexAfter rf.depth) with
+        | none => rw [hq] at hacc; simp at hacc
+        | some qD =>
+          rw [hq] at hacc
+          simp only at hacc
+          cases hr : (S.dfa (S.tyOf rf.parent)).run qD (S.types sl.content) with
+          | none => rw [hr] at hacc; simp at hacc
+          | some q' =>
+            exact replaceStep_direct_applies S (detS_of_detB S hdet) (PM.FromDom.leafOk_of_B S hleaf)
+              (fillersOK_of_B S hfill) (closable_of_B S hcl) (textStableP_of_C S hts) (textAbsorb_of_B S hta) hjc hro
+              hiu ty0 a0 m0 K f t hv hn hattrs hhc hft rf rt hrf hrt hpf' hpt' sl hos hoe hsn hslv hshc qD q' hq hr
+              st h
+
+/-- **`insertInline_never_raises_direct_partial`** — typing / inserting inline leaves over a range `[f, t)` whose start
+    lies in a node that accepts them as they stand (`directFitB`: typing into a textblock, over a selection inside it or
+    across blocks): `replace_step` returns `None` or a step, the step applies, the returned document is valid,
+    everything outside `[f, t)` is kept and the text between is an in-order subsequence of the typed text.  No refusal
+    branch, no hypothesis about the step.
+    FULL STATEMENT (`insertInline_never_raises`): the same without `hdir`.  Missing: the runs of `Fitter.fit` in which
+    `find_fittable` does not answer the innermost frontier entry for the whole content — the Fitter closes frontier
+    nodes first (typing at a place between blocks: the text goes into a wrapper paragraph `find_wrapping` supplies) or
+    `place_nodes` takes a prefix only; for those `insertInline_total_valid_partial` keeps its refusal branch. -/
+theorem insertInline_never_raises_direct_partial (S : Schema) (hdet : detB S = true) (hfill : S.fillersOKB = true)
+    (hwrap : S.wrapOKB = true) (hlab : S.labelsOKB = true) (hleaf : PM.FromDom.leafOkB S = true)
+    (hts : textStableC S = true) (hcl : S.closableB = true) (hst : PM.FromDom.textStableB S = true)
+    (hta : textAbsorbB S = true) (hjc : joinCompatB S = true) (hro : reopenOKB S = true)
+    (hiu : inlineUniformB S = true) (doc : Node) (f t : Nat) (sl : Slice)
+    (hsl : sl.inlineLeaves S = true) (hslv : sl.closedValid S = true) (hsn : fnorm sl.content = true)
+    (hshc : highClosedKids sl.content = true)
+    (hv : C01.Valid S doc) (hdoc : C01.IsElem doc) (hn : fnorm doc.kids = true) (hattrs : S.nodeAttrsOK doc = true)
+    (hhc : highClosedKids doc.kids = true) (htop : S.isTextblockO (S.tyOf doc) = false)
+    (hft : f ≤ t) (ht : t ≤ fsize doc.kids)
+    (hpf : pairAligned doc f = true) (hpt : pairAligned doc t = true) (hdir : directFitB S doc f sl = true) :
+    replaceStep S doc f t sl = .ok none ∨
+    ∃ st doc', replaceStep S doc f t sl = .ok (some st) ∧ S.apply st doc = .ok doc' ∧ C01.Valid S doc' ∧
+      Kept (ftoks doc.kids) (ftoks doc'.kids) f t (textUnits (sliceToks' sl)) := by
+  obtain ⟨r, hr⟩ := insertInline_total S hdet hfill hwrap doc f t sl hsl hv hattrs htop hft ht
+  cases r with
+  | none => exact .inl hr
+  | some st =>
+    obtain ⟨doc', ha⟩ := replace_applies_direct S hdet hfill hleaf hcl hts hta hjc hro hiu doc f t sl hv hdoc hn hattrs hhc
+      hft hpf hpt hdir hslv hsn hshc st hr
+    exact .inr ⟨st, doc', hr, ha,
+      insertInline_valid S hdet hfill hwrap hlab hleaf hts hcl hst doc doc' f t sl hsl hslv hsn hv hn hattrs hft st hr ha⟩
+
+/-- the hypotheses of `replace_applies_direct` are satisfiable on runs that reach the Fitter, with both answers: typing
+    `"x"` over `[2, 6)` in `doc(p("ab"), p("cd"))` is no trivial fit and ends in a replace step; over `[3, 8)` in
+    `doc(bq(p("ab")), p("cd"))` it ends in the replace-around step with `insert = 1` that moves `"d"` behind the typed
+    `"x"` in the quoted paragraph -/
+example :
+    let nt (name : String) (isText inl : Bool) (dfa : Array DfaState) : NodeType :=
+      { name := name, isText := isText, isInline := isText, isLeaf := isText, isAtom := isText,
+        inlineContent := inl, isolating := false, defining := false, code := false,
+        dfa := dfa, markSet := none, attrs := [] }
+    let S : Schema := { nodes := #[nt "doc" false false #[⟨false, [(1, 1), (2, 1)]⟩, ⟨true, [(1, 1), (2, 1)]⟩],
+                                   nt "paragraph" false true #[⟨true, [(3, 0)]⟩],
+                                   nt "blockquote" false false #[⟨false, [(1, 1), (2, 1)]⟩, ⟨true, [(1, 1), (2, 1)]⟩],
+                                   nt "text" true false #[⟨true, []⟩]],
+                        marks := #[], top := 0, textTy := 3 }
+    let doc1 := Node.elem 0 [] [] [.elem 1 [] [] [.text [97, 98] []], .elem 1 [] [] [.text [99, 100] []]]
+    let doc2 := Node.elem 0 [] [] [.elem 2 [] [] [.elem 1 [] [] [.text [97, 98] []]], .elem 1 [] [] [.text [99, 100] []]]
+    let sl : Slice := ⟨[.text [120] []], 0, 0⟩
+    detB S = true ∧ S.fillersOKB = true ∧ PM.FromDom.leafOkB S = true ∧ S.closableB = true ∧ textStableC S = true ∧
+    textAbsorbB S = true ∧ joinCompatB S = true ∧ reopenOKB S = true ∧ inlineUniformB S = true ∧
+    sl.closedValid S = true ∧ fnorm sl.content = true ∧ highClosedKids sl.content = true ∧
+    S.checkNode doc1 = true ∧ fnorm doc1.kids = true ∧ S.nodeAttrsOK doc1 = true ∧ highClosedKids doc1.kids = true ∧
+    pairAligned doc1 2 = true ∧ pairAligned doc1 6 = true ∧ directFitB S doc1 2 sl = true ∧
+    fitsTriviallyO S doc1 2 6 sl = some false ∧
+    (match replaceStep S doc1 2 6 sl with
+     | .ok (some (.replace 2 6 sl' _)) => sl' == sl
+     | _ => false) = true ∧
+    S.checkNode doc2 = true ∧ fnorm doc2.kids = true ∧ S.nodeAttrsOK doc2 = true ∧ highClosedKids doc2.kids = true ∧
+    pairAligned doc2 3 = true ∧ pairAligned doc2 8 = true ∧ directFitB S doc2 3 sl = true ∧
+    (match replaceStep S doc2 3 8 sl with
+     | .ok (some (.replaceAround 3 10 8 9 _ 1 _)) => true
+     | _ => false) = true := by
+  decide +kernel
+
+/-- **`joinCompat_needed`** — without `joinCompatB` the statement is false, in the model as in the code: schema
+    `doc: "(x | y)+"`, `x: "a b*"`, `y: "b+"` (leaves `a`, `b`) satisfies every other guard; in `doc(x(a), y(b, b))` the
+    request `delete(2, 5)` does not fit trivially (`from` and `to` have different parents); the Fitter closes at depth 1 (the
+    `b` behind `to` is accepted behind `a` in `x`), emits `ReplaceStep(2, 5, Slice.empty)`, and `apply` refuses it
+    (`check_join`: the start states of `x` and `y` share no node type — `ReplaceError("Cannot join y onto x")`,
+    `TransformError` from `Transform.delete`) -/
+theorem joinCompat_needed :
+    let nt (name : String) (leaf : Bool) (dfa : Array DfaState) : NodeType :=
+      { name := name, isText := false, isInline := false, isLeaf := leaf, isAtom := leaf,
+        inlineContent := false, isolating := false, defining := false, code := false,
+        dfa := dfa, markSet := none, attrs := [] }
+    let S : Schema := { nodes := #[nt "doc" false #[⟨false, [(1, 1), (2, 1)]⟩, ⟨true, [(1, 1), (2, 1)]⟩],
+                                   nt "x" false #[⟨false, [(3, 1)]⟩, ⟨true, [(4, 1)]⟩],
+                                   nt "y" false #[⟨false, [(4, 1)]⟩, ⟨true, [(4, 1)]⟩],
+                                   nt "a" true #[⟨true, []⟩],
+                                   nt "b" true #[⟨true, []⟩],
+                                   { (nt "text" true #[⟨true, []⟩]) with isText := true, isInline := true }],
+                        marks := #[], top := 0, textTy := 5 }
+    let doc := Node.elem 0 [] [] [.elem 1 [] [] [.leaf 3 [] []], .elem 2 [] [] [.leaf 4 [] [], .leaf 4 [] []]]
+    joinCompatB S = false ∧
+    detB S = true ∧ S.fillersOKB = true ∧ PM.FromDom.leafOkB S = true ∧ S.closableB = true ∧ textStableC S = true ∧
+    textAbsorbB S = true ∧ reopenOKB S = true ∧ inlineUniformB S = true ∧
+    S.checkNode doc = true ∧ fnorm doc.kids = true ∧ S.nodeAttrsOK doc = true ∧ highClosedKids doc.kids = true ∧
+    pairAligned doc 2 = true ∧ pairAligned doc 5 = true ∧
+    (match replaceStep S doc 2 5 Slice.empty with
+     | .ok (some (.replace 2 5 sl _)) => sl == Slice.empty
+     | _ => false) = true ∧
+    S.apply (.replace 2 5 Slice.empty false) doc = .error .failed := by
+  intro nt S doc
+  refine ⟨by decide +kernel, by decide +kernel, by decide +kernel, by decide +kernel, by decide +kernel,
+    by decide +kernel, by decide +kernel, by decide +kernel, by decide +kernel, by decide +kernel, by decide +kernel,
+    by decide +kernel, by decide +kernel, by decide +kernel, by decide +kernel, by decide +kernel, ?_⟩
+  simp [Schema.apply, Schema.fromReplace, Schema.replace, doc, replaceKids, inRange, depthAt, Slice.empty, Slice.wf,
+    spineL, spineR, outer, atLevel, twoWay, splitRight, Schema.compatibleContent, Dfa.compatible, S, nt, Schema.dfa,
+    Schema.nodeType, Dfa.edgesOf, Except.map]
 
 end PM.C11
